@@ -1,2 +1,3 @@
-import RioModel.Model.Header
-import RioModel.Props.C13
+-- Library root.  The modules that matter are built per property (see props/*.json and setup.sh);
+-- this file only imports what every driver shares.
+import RioModel.Generated.Consts
